@@ -130,7 +130,7 @@ def check_c07(pid, tier, seed, res, work):
             # files whose PARSE takes seconds (a class cut off inside a comment full of `/*`: tree-sitter's error
             # recovery is quadratic there), as many as there are workers, walked before the ordinary files: every
             # worker handles an ordinary file right after a slow one
-            files = [('0slow/S%d.java' % k, ('public class S%d {\n  void before() { int q = %d + 2; }\n  /* ' % (k, k) + '/* x ' * 5200 + '\n').encode()) for k in range(5)] + files
+            files = [('0slow/S%d.java' % k, ('public class S%d {\n  void before() { int q = %d + 2; }\n  /* ' % (k, k) + '/* x ' * 9000 + '\n').encode()) for k in range(5)] + files
             stats['slow_parse_files'] += 5
         proj = '%s/p%d' % (work, pi)
         os.makedirs(proj, exist_ok=True)
@@ -147,7 +147,7 @@ def check_c07(pid, tier, seed, res, work):
                 if rr.get('race'):
                     res.violations.append(dict(property='C07', what='data race during graph.Initialize', detail=rr['error'],
                                                project=[(p, d.decode('utf-8', 'replace')) for p, d in files], how='harness built with -race, `orders` on the project'))
-        r = orders_run(proj, work, (1 if tier == 'quick' else 3) if slow else (6 if tier == 'quick' else 30), seed + pi)
+        r = orders_run(proj, work, 1 if slow else (6 if tier == 'quick' else 30), seed + pi)
         if 'error' in r:
             res.tie_broken.append('orders campaign could not run: ' + r['error'])
             return stats, samples
